@@ -3,6 +3,7 @@ import Rbp.Proofs.OpReturn
 import Rbp.Proofs.Base58Check
 import Rbp.Proofs.Bech32Decode
 import Rbp.Proofs.Classify
+import Rbp.Proofs.Multisig
 /-!
 # C05 — Bitcoin/testnet3: every output script gets the reference type and address
 The rust-bitcoin predicates are modelled by hand in `S`; these theorems relate the model to byte templates.
@@ -54,18 +55,15 @@ theorem type_iff_template (testnet : Bool) (s : Bytes) :
     ((evalBtc testnet s).pattern = .multisig ↔ isBareMultisig s = true) :=
   pattern_iff testnet s
 
-/-- **bare m-of-n multisig.**  `OP_m <key>{n} OP_n OP_CHECKMULTISIG` with 1 ≤ m ≤ n ≤ 16 — every key any well-formed push
-    (any length, any push form) — passes the bare-multisig test, hence (by `type_iff_template`) is typed Pay2MultiSig;
-    conversely a script that passes it starts with OP_1..OP_16, ends with OP_1..OP_16 OP_CHECKMULTISIG and has at most 19
-    instructions (the full converse — the middle is exactly n pushes — is checked by the correspondence's m-of-n grid) -/
-theorem multisig_template (m n : Nat) (keys : List (T.Form × Bytes)) (hm : 1 ≤ m) (hmn : m ≤ n) (hn : n ≤ 16)
-    (hk : keys.length = n) (hwf : ∀ p ∈ keys, (T.Tok.push p.1 p.2).WF) :
-    isBareMultisig ([UInt8.ofNat (0x50 + m)] ++ keys.flatMap (fun p => (T.Tok.push p.1 p.2).enc) ++
-      [UInt8.ofNat (0x50 + n), 0xae]) = true ∧
-    (∀ s, isBareMultisig s = true →
-      (∃ m rest, s = m :: rest ∧ 0x51 ≤ m.toNat ∧ m.toNat ≤ 0x60) ∧ 3 ≤ s.length ∧
-      0x51 ≤ (get s (s.length - 2)).toNat ∧ (get s (s.length - 2)).toNat ≤ 0x60 ∧ ((instrs s).take 20).length ≤ 19) :=
-  ⟨bare_multisig_template m n keys hm hmn hn hk hwf, bare_multisig_ends⟩
+/-- **bare m-of-n multisig ⇔ template.**  A script passes the bare-multisig test — hence (by `type_iff_template`) is typed
+    Pay2MultiSig — exactly when it is `OP_m`, then `n` keys, then `OP_n OP_CHECKMULTISIG` with 1 ≤ m ≤ n ≤ 16 and nothing
+    else, a key being any well-formed push (any length, any push form) or OP_0 (which the instruction iterator reports as an
+    empty push) -/
+theorem multisig_iff_template (s : Bytes) :
+    isBareMultisig s = true ↔
+      ∃ (m n : Nat) (ks : List T.Tok), 1 ≤ m ∧ m ≤ n ∧ n ≤ 16 ∧ ks.length = n ∧ (∀ k ∈ ks, k.WF ∧ IsKey k) ∧
+        s = [UInt8.ofNat (0x50 + m)] ++ ks.flatMap T.Tok.enc ++ [UInt8.ofNat (0x50 + n), 0xae] :=
+  bare_multisig_iff s
 
 /-- non-vacuity: 1-of-1 with a 33-byte key -/
 example : (T.Tok.push .direct (List.replicate 33 2)).WF := by simp [T.Tok.WF]
